@@ -92,6 +92,7 @@ Var(TT, tn, d) ==
     [] t.k \in {"var", "str"} ->
          IF d = 0 THEN <<[k |-> "bytes", b |-> <<>>]>>
          ELSE LET lens == {0, 1, 3, 4, 5, 16} \cup (IF t.max > 0 /\ t.max <= 1024 THEN {t.max} ELSE {63})
+                          \cup (IF t.max = 0 THEN {255, 256, 1025, 4100} ELSE {})    \* "<>" in the RFC text: no bound at all
                   ok == {n \in lens : t.max = 0 \/ n <= t.max}
                   ls == ToSeq(ok \ {0})
               IN <<[k |-> "bytes", b |-> <<>>]>> \o [j \in 1..Len(ls) |-> [k |-> "bytes", b |-> [i \in 1..ls[j] |-> 97 + (i % 26)]]]
